@@ -903,12 +903,12 @@ class Gen:
         flags = r.choice([None, None, 0, 1, 2, 3, 4, 5, 6, 7, 1, 2, 3, 5, 6, 7])
         self.isubs.append(var)
         body = self.loop_body(d, var)
-        sep = T(self.text(0, 3, " ;.+-|/:"))
+        sep = T(self.text(0, 3, " ;.+-|/:&<>\'\""))
         if flags is not None and flags & 4 and r.random() < .7:
             sep = Seq([sep, {'t': 'Sub', 'n': var}, T(r.choice(['', ':', ' ']))])
         self.isubs.pop()
         hasf = r.choice([0, 0, 1])
-        fsep = T(self.text(0, 5, LOW + ' +')) if hasf else T('')
+        fsep = T(self.text(0, 5, LOW + ' +&<\'')) if hasf else T('')
         p = P(start, stop, step if (step['v'] != 1 or r.random() < .3 or flags is not None) else None,
               Lit(flags) if flags is not None else None)
         if flags is not None and r.random() < .4:
@@ -942,14 +942,14 @@ class Gen:
             body = self.loop_body(d, var)
             self.isubs.pop()
         else:
-            items = [{'kind': 0, 'iv': 0, 's': [ord(c) for c in self.text(0, 5, LOW + DIG + ' +-.')]} for _ in range(n)]
+            items = [{'kind': 0, 'iv': 0, 's': [ord(c) for c in self.text(0, 5, LOW + DIG + ' +-.&<>\'')]} for _ in range(n)]
             xs = [{'t': 'Sub', 'n': var}]
             if r.random() < .6:
                 xs.insert(r.randint(0, 1), self.inline(d - 1, 1))
             body = Seq(xs) if len(xs) > 1 else xs[0]
         hasf = r.choice([0, 0, 1])
-        return {'t': 'Foreach', 'items': items, 'var': var, 'body': body, 'sep': T(self.text(0, 3, " ;.+-|/:")),
-                'fsep': T(self.text(0, 5, LOW + ' +')) if hasf else T(''), 'hasf': hasf}
+        return {'t': 'Foreach', 'items': items, 'var': var, 'body': body, 'sep': T(self.text(0, 3, " ;.+-|/:&<>\'\"")),
+                'fsep': T(self.text(0, 5, LOW + ' +&<\'')) if hasf else T(''), 'hasf': hasf}
 
     def t_while(self, d):
         r = self.r
@@ -1477,13 +1477,8 @@ class Render:
             return s
         joined = ''.join(items)
         cands = [c for c in ALT_DELIMS if c not in joined]
-        if self.inloop:
-            # skoolmacro escapes quotes in the output strings of #FOR/#FOREACH in HTML mode (reported; see probes)
-            cands = [c for c in cands if c not in '\'"']
-            if any(c in joined for c in '\'"'):
-                # ... so a quote inside a string of a macro nested in a loop reaches that macro as "&#x27;" / "&quot;":
-                # the ";" (and "&", "#") in it would be taken for the delimiter - same open finding, keep away from it
-                cands = [c for c in cands if c not in ';&#']
+        # (quotes inside #FOR/#FOREACH strings used to be escaped to &quot; / &#x27; in HTML mode - fixed finding
+        # macro:probe:loop-html-escape; they are generated freely again)
         if not self.htmlsafe:
             pass
         elif any(c in joined for c in '&<>'):
@@ -1497,7 +1492,7 @@ class Render:
             self.used.add('str:alt1')
             return d + items[0] + d
         seps = [c for c in ALT_DELIMS + ' ' + ',' if c not in joined and (c != ';' or not any(x in joined for x in '&<>'))
-                and not (self.inloop and c in '\'"') and not (self.inloop and c in ';&#' and any(x in joined for x in '\'"'))]
+                ]
         if not seps:
             return None
         sp = d if (r.random() < .3 and d in seps) else (' ' if (r.random() < .2 and ' ' in seps) else r.choice(seps))
